@@ -265,6 +265,17 @@ class Inst:
         return rows[r:] + rows[:r]
 
 
+def _resolve(val, by_spec, inst):
+    """('@', domkey, i) -> the object; tuples/lists are resolved element-wise; ('list', ...) builds a list"""
+    if isinstance(val, tuple):
+        if len(val) == 3 and val[0] == "@" and isinstance(val[1], str):
+            return by_spec[val[1]][val[2]]
+        if val and val[0] == "list!":
+            return [_resolve(e, by_spec, inst) for e in val[1:]]
+        return tuple(_resolve(e, by_spec, inst) for e in val)
+    return inst.v(val)
+
+
 def build_world(wspec, inst: Inst):
     """wspec: tuple of (domain key, class name, rows); row = tuple of (field, value) pairs.
 
@@ -288,11 +299,7 @@ def build_world(wspec, inst: Inst):
                 cname, row = row[1], row[2:]
             kw = {}
             for f, val in row:
-                if isinstance(val, tuple) and len(val) == 3 and val[0] == "@":
-                    val = by_spec[val[1]][val[2]]
-                else:
-                    val = inst.v(val)
-                kw[f] = val
+                kw[f] = _resolve(val, by_spec, inst)
             cls = CLASSES[cname]
             if "tag" not in kw:
                 kw["tag"] = f"{domkey}{i}"
